@@ -6,14 +6,19 @@ import Alpaqa.Model.C16Exec
 
 open Alpaqa Alpaqa.Proto Alpaqa.C16
 
-def SBS : Nat := 32
 def NPOOL : Nat := 3
+
+/-- small-buffer size of the wrapper kinds the harness drives (each one is `static_assert`ed there
+    against the wrapper's own `small_buffer_size`): 0 bespoke `TypeErased<VT, A, 32>`,
+    1 `TypeErasedProblem` and 2 `TypeErasedControlProblem` (library default for their vtables: 0,
+    every payload on the heap), 3 a `required-method.hpp`-style vtable with the default size (32) -/
+def sbsOf (kind : Nat) : Nat := if kind = 1 || kind = 2 then 0 else 32
 
 def tyOf (t : String) : Option Nat :=
   if t = "S" then some 16 else if t = "E" then some 32 else if t = "L" then some 48 else none
 
-def cfgOf (c : Nat) : Cfg :=
-  { sbs := SBS, pocca := c % 2 == 1, pocma := (c / 2) % 2 == 1, socc := (c / 4) % 2 == 1, npool := NPOOL }
+def cfgOf (c : Nat) (kind : Nat := 0) : Cfg :=
+  { sbs := sbsOf kind, pocca := c % 2 == 1, pocma := (c / 2) % 2 == 1, socc := (c / 4) % 2 == 1, npool := NPOOL }
 
 def fmtEv : Ev → String
   | .alloc a b sz => s!"A {a} {b} {sz}"
@@ -74,11 +79,12 @@ def parseOp (ts : List String) : Option Op :=
 def c16Step (s : State) (line : String) : State × String :=
   let ts := tokens line
   match ts with
-  | ["reset", c] =>
+  | "reset" :: c :: rest =>
     let f := finish { s with log := [] }
     let out := fmtLine f
       s!"end bad={badIds f} blk={badBlocks f} ids={f.nextId} nblk={f.nblk} ar={fmtArenas f}"
-    (initState (cfgOf (c.toNat?.getD 0)) 16 48, out)
+    let kind := match rest with | k :: _ => k.toNat?.getD 0 | [] => 0
+    (initState (cfgOf (c.toNat?.getD 0) kind) 16 48, out)
   | _ =>
     match parseOp ts with
     | none => (s, "parse-error")
